@@ -47,6 +47,10 @@ type Cfg struct {
 	MaxElapsMS  int    `json:"max_elapsed_ms"`   // 0 = unbounded
 	RetryInitMS int    `json:"retry_initial_ms"` // 1 | 3600000 (a request parked in back-off when shutdown arrives)
 	TimeoutMS   int    `json:"timeout_ms"`
+	// LegacyMax > 0: the deprecated but public WithBatcher option on top of the queue (this is the only way
+	// to batch/split over a persistent queue): merge up to LegacyMin items, split above LegacyMax items.
+	LegacyMax int `json:"legacy_batch_max,omitempty"`
+	LegacyMin int `json:"legacy_batch_min,omitempty"`
 }
 
 // Script: requests (item counts) sent one after the other, a backend
@@ -186,6 +190,17 @@ func options(cfg Cfg) ([]exporterhelper.Option, error) {
 		return nil, err
 	}
 	opts := []exporterhelper.Option{exporterhelper.WithQueue(q), exporterhelper.WithTimeout(exporterhelper.TimeoutConfig{Timeout: time.Duration(cfg.TimeoutMS) * time.Millisecond})}
+	if cfg.LegacyMax > 0 {
+		b := exporterhelper.NewDefaultBatcherConfig()
+		b.Enabled = true
+		b.FlushTimeout = 3 * time.Millisecond
+		b.MinSize = int64(cfg.LegacyMin)
+		b.MaxSize = int64(cfg.LegacyMax)
+		if err := b.Validate(); err != nil {
+			return nil, err
+		}
+		opts = append(opts, exporterhelper.WithBatcher(b))
+	}
 	r := configretry.NewDefaultBackOffConfig()
 	r.Enabled = cfg.Retry
 	r.InitialInterval = time.Duration(max(cfg.RetryInitMS, 1)) * time.Millisecond
@@ -370,7 +385,7 @@ func runInner(s *Script) (bool, *vt.Finding) {
 		}
 	}
 	// classes
-	cS.Class(fmt.Sprintf("persistent:%v", s.Cfg.Persistent), fmt.Sprintf("batch:%v", s.Cfg.Batch), fmt.Sprintf("retry:%v", s.Cfg.Retry))
+	cS.Class(fmt.Sprintf("persistent:%v", s.Cfg.Persistent), fmt.Sprintf("batch:%v", s.Cfg.Batch), fmt.Sprintf("retry:%v", s.Cfg.Retry), fmt.Sprintf("legacy-batcher:%v", s.Cfg.LegacyMax > 0))
 	total := 0
 	for _, r := range reqs {
 		if r.accepted {
@@ -437,6 +452,10 @@ func gen(t *rapid.T) Script {
 		} else {
 			c.Sizer = rapid.SampledFrom([]string{"requests", "items"}).Draw(t, "sizer")
 		}
+	}
+	if !c.Batch && rapid.IntRange(0, 2).Draw(t, "legacy_batcher") == 0 && c.Sizer == "requests" {
+		c.LegacyMax = rapid.IntRange(1, 4).Draw(t, "legacy_max")
+		c.LegacyMin = rapid.IntRange(0, c.LegacyMax).Draw(t, "legacy_min")
 	}
 	c.QueueSize = rapid.SampledFrom([]int{3, 1000, 1000}).Draw(t, "queue_size")
 	c.Retry = rapid.Bool().Draw(t, "retry")
